@@ -2,7 +2,7 @@
 # Triage helper (not a registered check): rebuild /repo/_build and run the pinned suite; report gtest cases that fail
 # and are not in BASELINE.always_fail.
 set -e
-cmake --build /repo/_build -j16 2>&1 | grep -E "error|FAILED" && exit 1
+echo "use triage/suite_check.py (this script misses crashed test binaries)"; exec python3 /verif/triage/suite_check.py
 ctest --test-dir /repo/_build -j8 --timeout 900 >/tmp/suite.log 2>&1 || true
 tail -3 /tmp/suite.log
 ctest --test-dir /repo/_build -j8 --rerun-failed --output-on-failure 2>/dev/null | grep "^\[  FAILED  \] [A-Za-z]*\.[A-Za-z0-9_]* (" | sed 's/\[  FAILED  \] //; s/ (.*//; s/\./::/' | sort -u > /tmp/suite.failed
